@@ -183,3 +183,28 @@ const ONE_MINUS_P: felt252 = -0x800000000000011000000000000000000000000000000000
 fn dc_full_range(a: BoundedInt<ONE_MINUS_P, 0>) -> felt252 {
     match downcast::<BoundedInt<ONE_MINUS_P, 0>, u8>(a) { Some(v) => upcast(v), None => 1 }
 }
+
+// ---- downcasts whose target range touches a boundary of the cast strategies: upper end exactly at
+// the range-check bound, positive lower bound with the upper end untouched ("below-only"),
+// negative lower bound.
+fn dc_felt_upper_at_rc_bound(a: felt252) -> felt252 {
+    match downcast::<felt252, BoundedInt<0xfffffffffffffffffffffffffffffc18, 0xffffffffffffffffffffffffffffffff>>(a) { Some(v) => upcast(v), None => 1 }
+}
+fn dc_u8_below_only(a: u8) -> felt252 {
+    match downcast::<u8, BoundedInt<10, 255>>(a) { Some(v) => upcast(v), None => 1000 }
+}
+fn dc_u128_below_only(a: u128) -> felt252 {
+    match downcast::<u128, BoundedInt<0x10000000000000000, 0xffffffffffffffffffffffffffffffff>>(a) { Some(v) => upcast(v), None => 1 }
+}
+fn dc_i8_below_only_neg(a: i8) -> felt252 {
+    match downcast::<i8, BoundedInt<-5, 127>>(a) { Some(v) => upcast(v), None => 1000 }
+}
+fn dc_i128_below_only_neg(a: i128) -> felt252 {
+    match downcast::<i128, BoundedInt<-1000, 0x7fffffffffffffffffffffffffffffff>>(a) { Some(v) => upcast(v), None => 1000 }
+}
+fn dc_i8_above_only(a: i8) -> felt252 {
+    match downcast::<i8, BoundedInt<-128, 5>>(a) { Some(v) => upcast(v), None => 1000 }
+}
+fn dc_u64_above_only(a: u64) -> felt252 {
+    match downcast::<u64, BoundedInt<0, 0xfffffffffffffff0>>(a) { Some(v) => upcast(v), None => 1 }
+}
